@@ -29,7 +29,7 @@ class SourceLinkContainer(LinkContainer):
         super(SourceLinkContainer, self).__init__("sources", parent, Source,
                                                   parent._parent.sources)
 
-    def append(self, item):
+    def _check_item(self, item):
         if util.is_uuid(item):
             item = self._inst_item(self._backend.get_by_id(item))
 
@@ -39,5 +39,4 @@ class SourceLinkContainer(LinkContainer):
         if not self._itemstore._parent.find_sources(filtr=lambda x:
                                                     x.id == item.id):
             raise RuntimeError("This item cannot be appended here.")
-
-        self._backend.create_link(item, item.id)
+        return item
